@@ -3,15 +3,30 @@ LEVEL = "model_checking"
 TECHNIQUE = "CBMC bounded symbolic execution of evdns.c request_parse on a symbolic datagram (name_parse by its C33-verified contract, response formatting cut), vs an RFC 1035/6891 reference walk"
 UNITS = ["evdns.c"]
 FUNCTIONS = ["request_parse", "evdns_server_request_add_reply", "server_request_free", "evdns_server_request_drop"]
-BOUNDS = ""
-OUT = ""
-TEXT = ""
-NOTE = ""
-ASSUMPTIONS = []
+BOUNDS = ("every UDP datagram of <= 28 (quick) / 36 (thorough) octets in an exact-size object, name_parse replaced by its C33-verified contract with decoded "
+          "names <= 4 / 6 octets, optional solver-chosen allocation failures; counts in the header unrestricted.")
+OUT = ("TCP length-prefix framing (tcp_read_message, server_tcp_read_packet_cb: their bodies are cut because cbmc resolves port->user_callback to them by "
+       "signature); response formatting/sending (evdns_server_request_respond is a recorder: C35); records after the first OPT are not examined by evdns and "
+       "not by the check; QDCOUNT=0 packets are dropped (zero-size allocation) - accepted as is; datagrams > 36 octets.")
+TEXT = ("request_parse on a symbolic datagram against an RFC 1035/6891 reference walk sharing the name oracle: no out-of-bounds access, at most one "
+        "callback/response, callback only for QR=0 opcode-0 packets whose questions and walked records are complete, delivered questions (name, type, class), id, "
+        "RD/CD flags and reply size limit max(512, OPT class) as in the packet, OPT echo record iff OPT present, well-formed standard queries are delivered, other "
+        "opcodes answered NOTIMPL, every path (including allocation failures) releases all memory and restores the port reference count.")
+NOTE = ("Trusted: cbmc 6.11, the name_parse contract stub, ref/dns_ref.h header/RR helpers. Findings (fixes/): C37-notimpl-dead (opcode bits masked before the "
+        "NOTIMPL test; on the unpatched tree the witness 'NOTIMPL answered' is unreachable), C37-truncated-rdata (last record's RDATA may run past the datagram). "
+        "parse_wf_*/parse_allocfail_* pass on the unpatched tree with both predicates excluded; parse_opcode_* and parse_strict_* fail without / pass with the "
+        "patches. Both findings were also reproduced natively (gcc+ASan) with concrete datagrams, see fixes/*.md. Harness notes: question objects are plain byte "
+        "objects and names are compared through a char pointer (cbmc 6.11 loses stores into struct padding / mis-reads char-array members of struct arrays).")
+ASSUMPTIONS = ["name_parse behaves per the contract proved in C33 (fails, or advances within (idx,length] with a NUL-terminated text) - proved for packets <= 16 octets",
+               "decoded question names have <= 4 (quick) / 6 (thorough) octets", "port->user_callback is the harness recorder"]
 DESIGN_REF = "DESIGN.md §5 C37, §3.8"
 
 INSTR = [["--replace-calls", "name_parse:c37_name_parse_contract"],
-         ["--replace-calls", "evdns_server_request_respond:c37_respond_recorder"]]
+         ["--replace-calls", "evdns_server_request_respond:c37_respond_recorder"],
+         # cbmc resolves port->user_callback by signature void(*)(ptr, ptr): besides the harness recorder these
+         # three library functions match; the port's callback is the recorder, so their bodies are cut
+         ["--remove-function-body", "client_tcp_read_packet_cb", "--remove-function-body", "server_tcp_read_packet_cb",
+          "--remove-function-body", "reply_run_callback"]]
 
 def rp(name, L, T=4, extra=(), **kw):
     Q = (L - 12) // 5 + 1; R = (L - 12) // 11 + 1
@@ -29,7 +44,9 @@ def rp(name, L, T=4, extra=(), **kw):
 
 LEN = ["C37_LENIENT_RDATA", "C37_LENIENT_AFTER_OPT"]
 def obligations(tier):
-    return [rp("parse_wf_L28", 28, extra=["C37_KF_EXCLUDE_OPCODE"] + LEN),
-            rp("parse_opcode_L28", 28, extra=LEN),
-            rp("parse_strict_L28", 28, extra=["C37_KF_EXCLUDE_OPCODE"]),
-            rp("parse_allocfail_L28", 28, extra=["C37_KF_EXCLUDE_OPCODE", "C37_ALLOC_FAIL"] + LEN)]
+    L, T = (28, 4) if tier == "quick" else (36, 6)
+    kw = {} if tier == "quick" else dict(timeout=2400, mem_gb=10)
+    return [rp("parse_wf_L%d" % L, L, T, extra=["C37_KF_EXCLUDE_OPCODE"] + LEN, **kw),
+            rp("parse_opcode_L%d" % L, L, T, extra=LEN, **kw),
+            rp("parse_strict_L%d" % L, L, T, extra=["C37_KF_EXCLUDE_OPCODE"], **kw),
+            rp("parse_allocfail_L%d" % L, L, T, extra=["C37_KF_EXCLUDE_OPCODE", "C37_ALLOC_FAIL"] + LEN, **kw)]
